@@ -38,8 +38,8 @@ PATHS_HOST = ["host", "host_native", "frozen_host", "can_fill", "can_fill_native
 
 # (family cfg, number of slices, simulate behaviours per slice or None)
 FAMILIES = {
-    "quick": [("small", 9, None), ("wide2", 5, None), ("sim", 2, 10000)],
-    "thorough": [("small4", 42, None), ("extra2", 21, None), ("wide3", 21, None), ("simbig", 14, 17000)],
+    "quick": [("small", 9, None), ("wide2", 5, None), ("sim", 2, 10000), ("hostdup", 2, None)],
+    "thorough": [("small4", 42, None), ("extra2", 21, None), ("wide3", 21, None), ("simbig", 14, 17000), ("hostdup4", 8, None)],
 }
 
 
@@ -165,7 +165,7 @@ def run(tier):
             results.append(f.result())
     results.sort(key=lambda r: (r["fam"], r["part"]))
 
-    states = transitions = cases = evals = nontrivial = sigs = 0
+    states = transitions = cases = evals = nontrivial = sigs = host_only = 0
     by_class, features, by_path, per_family = {}, {}, {}, {}
     samples = []
     for r in results:
@@ -192,6 +192,7 @@ def run(tier):
         states += r["distinct"]
         transitions += r["generated"]
         cases += s["cases"]
+        host_only += s.get("host_only", 0)
         evals += s["evaluations"]
         nontrivial += s["nontrivial"]
         sigs += s["signatures"]
@@ -222,7 +223,8 @@ def run(tier):
 
     # vacuity guards: every outcome class, every mechanism, every path, in both directions
     for fam, pf in per_family.items():
-        missing = [c for c in CLASSES if not pf["classes"].get(c)]
+        # (every host-only call is ill-formed: its first broken rule is one of these three)
+        missing = [c for c in (("extra_pos", "extra_named", "repeated") if fam.startswith("hostdup") else CLASSES) if not pf["classes"].get(c)]
         if missing:
             raise C.ToolError("vacuous generation in family %s: classes never produced: %s" % (fam, missing))
     missing = [f for f in FEATURES if not features.get(f)]
@@ -234,8 +236,11 @@ def run(tier):
             if not e or not e["expected_ok"] or not e["expected_error"]:
                 raise C.ToolError("path %s was not exercised in both directions: %s" % (p, e))
         for p in PATHS_ALL:
-            if by_path[p]["expected_ok"] + by_path[p]["expected_error"] != cases:
-                raise C.ToolError("path %s ran %d of %d cases" % (p, by_path[p]["expected_ok"] + by_path[p]["expected_error"], cases))
+            if by_path[p]["expected_ok"] + by_path[p]["expected_error"] != cases - host_only:
+                raise C.ToolError("path %s ran %d of %d cases" % (p, by_path[p]["expected_ok"] + by_path[p]["expected_error"], cases - host_only))
+        if not host_only or by_path.get("host_lambda", {}).get("expected_error") != host_only:
+            raise C.ToolError("host-only calls (a name repeated among the named arguments): %d generated, %s run"
+                              % (host_only, by_path.get("host_lambda")))
 
     st_states, st_cases, st_ok, st_sample = _static(verdict, wd)
     states += st_states
